@@ -14,6 +14,11 @@ proposal sets and proposal views:
 * `stage_of_pending_matches_window`  an entry that is pending when the stage moves run ends up
                               exactly at the stage the new proposal view gives its id.
 
+* `no_expired_in_pool`        no surviving entry is one of the expired ids (repaired `remove_expired`);
+* `first_expired_descendants_removed`  the descendants (as `calc_descendants` sees them when the
+                              removal runs) of the first expired id are gone too; pre-fix witness
+                              `expired_parent_keeps_child_preF5` (F5, /repo 3724ae4).
+
 NOT theorems — false for the code as written, with `decide`d witnesses that the harness also
 observes on the real node (findings, see the final report):
 
@@ -107,6 +112,38 @@ example : update pool1 ⟨[⟨1, [10]⟩], [7], [], [], [2, 4], []⟩ = [⟨2, 2
 
 /-- a conflicting transaction (id 9, not pooled) spending out-point 10 is committed: 1 and its descendant 2 go -/
 example : (update pool1 ⟨[⟨9, [10]⟩], [], [], [], [], []⟩).map (·.id) = [3, 4] := by decide
+
+/-- repaired `remove_expired` (3724ae4): no expired id survives the update -/
+theorem no_expired_in_pool (p : Pool) (a : Args) : ∀ e ∈ update p a, e.id ∉ a.expired := by
+  intro e he
+  exact foldl_removeWithDesc_no_id a.expired _ e he
+
+/-- … and the descendants of the first expired id go with it (for the later ones the statement is
+    about `descOf` of the pool at that moment, i.e. the same lemma applied to the intermediate pool) -/
+theorem first_expired_descendants_removed (p : Pool) (a : Args) (x : Nat) (xs : List Nat)
+    (hx : a.expired = x :: xs) :
+    let p4 := ((a.detachedProposals.foldl detachProposal
+      (resolveHeaderDeps (a.attached.foldl removeCommitted p) a.detachedHeaders)).map (moveStage a))
+    ∀ e ∈ update p a, e.id ∉ descOf p4 x := by
+  intro p4 e he hd
+  have he' : e ∈ xs.foldl removeWithDesc (removeWithDesc p4 x) := by
+    have : update p a = a.expired.foldl removeWithDesc p4 := rfl
+    rw [this, hx] at he
+    simpa [List.foldl_cons] using he
+  have hsub : Sub (xs.foldl removeWithDesc (removeWithDesc p4 x)) (removeWithDesc p4 x) :=
+    sub_foldl _ sub_removeWithDesc _ _
+  obtain ⟨e0, he0, hid, _⟩ := hsub e he'
+  exact removeWithDesc_no_desc p4 x e0 he0 (hid ▸ hd)
+
+/-- non-vacuity: parent 1 (expired) with pooled child 2: both go, 3 stays -/
+example : (update [⟨1, 0, [10], [], [], [2]⟩, ⟨2, 0, [16], [], [], []⟩, ⟨3, 0, [11], [], [], []⟩]
+    ⟨[], [], [], [], [], [1]⟩).map (·.id) = [3] := by decide
+
+/-- F5 as it was before /repo 3724ae4: the expired parent 1 went alone, its child 2 (spending 1's
+    output 16) stayed pooled with an unknown input -/
+theorem expired_parent_keeps_child_preF5 :
+    (updatePreF5 [⟨1, 0, [10], [], [], [2]⟩, ⟨2, 0, [16], [], [], []⟩] ⟨[], [], [], [], [], [1]⟩).map (·.id) = [2] := by
+  decide
 
 /-- FINDING (stage): entry 2 is in stage gap; after a reorg its proposal is neither in the detached
     proposals (computed from the old *proposed* set only) nor anywhere in the new view — it stays gap -/
